@@ -163,7 +163,7 @@ fn chunk(src: &mut Src, s: &str) -> Vec<Call> {
     calls
 }
 
-fn gen_case(src: &mut Src, raw: bool, max_frags: usize) -> Case {
+pub fn gen_case(src: &mut Src, raw: bool, max_frags: usize) -> Case {
     let (cols, rows) = if src.chance(1, 20) { (80, 24) } else { gen::small_size(src) };
     let mut g = G::new(cols, rows);
     if raw {
@@ -181,13 +181,13 @@ fn gen_case(src: &mut Src, raw: bool, max_frags: usize) -> Case {
     case
 }
 
-fn gen_structured(src: &mut Src, _i: usize) -> Case {
+pub fn gen_structured(src: &mut Src, _i: usize) -> Case {
     gen_case(src, false, 12)
 }
-fn gen_raw(src: &mut Src, _i: usize) -> Case {
+pub fn gen_raw(src: &mut Src, _i: usize) -> Case {
     gen_case(src, true, 10)
 }
-fn gen_short(src: &mut Src, _i: usize) -> Case {
+pub fn gen_short(src: &mut Src, _i: usize) -> Case {
     // short inputs (<= 10 chars get every subset of cut points)
     let raw = src.chance(1, 3);
     let mut c = gen_case(src, raw, 2);
